@@ -13,8 +13,9 @@ The shortcut `incoming_type == required_type` (`typing.py:88`) is not a separate
 -/
 namespace PF.Typing
 
-/-- the classes of the grammar; `issubclass` is equality plus `bool ≤ int` -/
-inductive Base | int | bool | float | str | bytes | none
+/-- the classes of the grammar; `issubclass` is equality plus `bool ≤ int` and, for the two user-defined classes
+    `clsA` and `clsB(clsA)` (classes used as functions, dataclasses, pydantic models), `clsB ≤ clsA` -/
+inductive Base | int | bool | float | str | bytes | none | clsA | clsB
   deriving DecidableEq, Repr
 
 /-- builtin generic origins -/
@@ -36,7 +37,7 @@ inductive Ty
   deriving Repr, Inhabited
 
 /-- `issubclass(a, b)` on the classes of the grammar (`_compare_generic_type_origins`, `typing.py:164-168`) -/
-def Base.sub (a b : Base) : Bool := a == b || (a == .bool && b == .int)
+def Base.sub (a b : Base) : Bool := a == b || (a == .bool && b == .int) || (a == .clsB && b == .clsA)
 
 theorem Ty.sizeOf_pos (t : Ty) : 0 < sizeOf t := by
   cases t <;> simp <;> omega
